@@ -34,7 +34,9 @@ func semIs(err error) []string {
 func semTyped(err error) bool {
 	var a *sem.ParseError[string]
 	var b *sem.ParseError[[]byte]
-	return errors.As(err, &a) || errors.As(err, &b)
+	var c *sem.ParseError[myStr]
+	var d *sem.ParseError[myBytes]
+	return errors.As(err, &a) || errors.As(err, &b) || errors.As(err, &c) || errors.As(err, &d)
 }
 
 func verEv(v sem.Ver) Ev {
@@ -70,6 +72,29 @@ func semParse(fn string, in []byte, rule sem.Rule, T string) (v sem.Ver, err err
 				v, err = sem.ParseTag(s)
 			default:
 				v, err = sem.DefaultParser(s, rule)
+			}
+		} else if T == "S" {
+			s := myStr(in)
+			switch fn {
+			case "Parse":
+				v, err = sem.Parse(s)
+			case "ParseVersion":
+				v, err = sem.ParseVersion(s)
+			case "ParseTag":
+				v, err = sem.ParseTag(s)
+			default:
+				v, err = sem.DefaultParser(s, rule)
+			}
+		} else if T == "B" {
+			switch fn {
+			case "Parse":
+				v, err = sem.Parse(myBytes(reused(in)))
+			case "ParseVersion":
+				v, err = sem.ParseVersion(myBytes(reused(in)))
+			case "ParseTag":
+				v, err = sem.ParseTag(myBytes(reused(in)))
+			default:
+				v, err = sem.DefaultParser(myBytes(reused(in)), rule)
 			}
 		} else {
 			switch fn {
